@@ -73,12 +73,19 @@ RoutePfx6 == {"2001:db8::/32", "2001:db8:1::/48", "2001:db8:1:1::/64", "2001:db8
 
 Route(p, n) == [pfx |-> p, path |-> PathShape(n), las |-> LocalAS]
 
-(* ---- white-box pool: ordered, so that an observation is a tuple of verdicts in this order ---- *)
-SetToSortedSeq(S, LessEq(_, _)) ==
-  LET RECURSIVE F(_)
-      F(T) == IF T = {} THEN <<>>
-              ELSE LET x == CHOOSE y \in T : \A z \in T : LessEq(y, z) IN <<x>> \o F(T \ {x})
-  IN F(S)
+(* ---- white-box pools: explicit order, so that an observation is a tuple of verdicts in this
+   order; the generator sends the routes to the harness, the harness echoes only the key ---- *)
+PfxSeq4 == <<"10.0.0.0/8", "10.1.0.0/16", "10.1.1.0/24", "10.1.1.128/25", "10.2.3.0/24", "11.0.0.0/8">>
+PfxSeq6 == <<"2001:db8::/32", "2001:db8:1::/48", "2001:db8:1:1::/64", "2001:db8:2::/48", "2001:db9::/32">>
+Grid(P, Sh) == [i \in 1..(Len(P) * Len(Sh)) |-> Route(P[((i - 1) \div Len(Sh)) + 1], Sh[((i - 1) % Len(Sh)) + 1])]
+SetShapes == <<1, 2, 3, 5, 9, 10>>          \* one shape per origin class
+AllShapeSeq == <<1, 2, 3, 4, 5, 6, 7, 8, 9, 10>>
+(* one foreign-family route at the end: the two trees are independent *)
+RoutePool(k) ==
+  CASE k = "set-v4" -> Grid(PfxSeq4, SetShapes) \o <<Route("2001:db8:1::/48", 1)>>
+    [] k = "set-v6" -> Grid(PfxSeq6, SetShapes) \o <<Route("10.1.1.0/24", 1)>>
+    [] k = "walk"   -> Grid(PfxSeq4 \o PfxSeq6, AllShapeSeq)
+VerdictCode(v) == CASE v = "notfound" -> 0 [] v = "valid" -> 1 [] v = "invalid" -> 2
 
 (* ---- end-to-end pool: named routes injected through the API; sh = shape index ---- *)
 E2ERouteNames == {"r1", "r2", "r3", "r4", "r5", "r6", "r7", "r8", "r9", "r10", "r11", "r12"}
